@@ -8,3 +8,4 @@ import VK.Props.C08Random
 import VK.Props.C08NeutralPairwise
 import VK.Props.C08NeutralDictator
 import VK.Props.C08CandOrderSTV
+import VK.Props.C08CandOrderPairwise
